@@ -6,7 +6,7 @@ PROPS = 'Props/C12.v'
 
 
 def gen_cases(rng, tier):
-    nbig, nsmall, nbam = (4, 70, 20) if tier == 'quick' else (120, 1500, 300)
+    nbig, nsmall, nbam = (6, 120, 25) if tier == 'quick' else (120, 1500, 300)
     cases = []
     for i in range(nbam):
         nref = rng.choice([0, 1, 2, 5, 50, 400, 3000])
